@@ -6,7 +6,7 @@ from props.subgen import Sub
 def check(run, tier, seed, replay):
     variant = gen_pool.pool_variant()
     run.extra["source_variant"] = variant
-    compcheck.run(run, "C10", [Sub(gen_pool, ["pool", "poolseq"])], tier, seed, replay,
+    compcheck.run(run, "C10", [Sub(gen_pool, ["pool", "poolseq"])], tier, seed, replay, poolskel=True,
                   rule="the REAL WorkerPool with W in {1,2,3,8} workers and 0..50 tasks, seed-derived sleeps in the producer and inside "
                        "tasks, several pools one after the other in one process; per-task execution counters must all be 1 and "
                        "stop_all_workers(); wait_workers() must return (watchdog turns a hang into an observation). The model side runs "
